@@ -7,7 +7,8 @@ Crash invariant  CI :  every visible path named output.pkl / metadata.json is a 
 CI is asserted after EVERY file-system effect (a crash leaves a prefix of the effects; a file that is open for writing
 is in state 1 whatever prefix of its bytes reached the disk).
 Interference (variant "concurrent"): before every primitive the whole file system is replaced by an arbitrary one
-that (a) leaves this writer's own temporaries (its thread id and pid) untouched and (b) satisfies CI (what every
+that (a) neither creates nor rewrites this writer's own temporaries (its thread id and pid) - they may only vanish, removed
+with their entry by a concurrent clear() / reduce_size() - and (b) satisfies CI (what every
 cache user guarantees: final names are only ever the target of an atomic replace of a complete file).
 """
 import z3
@@ -119,7 +120,8 @@ def build():
         ex2, ct2, pay2 = (z3.Const(n + s, k.sort()) for s, k in ((".ex", EXK), (".ct", CTK), (".pay", PAYK)))
         q = z3.Const("q!if", PathDT)
         mine = z3.And(PathDT.is_tmp(q), PathDT.tid(q) == g["TID"].term, PathDT.pid(q) == g["PID"].term)
-        ctx.assume(z3.ForAll([q], z3.Implies(mine, z3.And(z3.Select(ex2, q) == z3.Select(ex, q), z3.Select(ct2, q) == z3.Select(ct, q),
+        # nobody else creates or writes this user's temporaries - but a concurrent clear() / reduce_size() may REMOVE them with the entry
+        ctx.assume(z3.ForAll([q], z3.Implies(mine, z3.And(z3.Implies(z3.Select(ex2, q), z3.Select(ex, q)), z3.Select(ct2, q) == z3.Select(ct, q),
                                                           z3.Select(pay2, q) == z3.Select(pay, q)))))
         ctx.assume(ci_term(ex2, ct2))
         setfs(ctx, ex2, ct2, pay2)
@@ -179,6 +181,9 @@ def build():
         t = to_term(args[0])
         if ctx.branch(z3.Select(ex, t), "makedirs:exists"):
             raise PyRaise(SExc(BUILTIN_EXC["FileExistsError"], (), errno=17))
+        if ctx.ghost.get("INTERFERE") and parents(t) and ctx.choose(2, "makedirs:a-parent-vanishes-between-two-levels") == 1:
+            # os.makedirs creates the missing levels one mkdir at a time: another user removing a level in between gives ENOENT
+            raise PyRaise(SExc(BUILTIN_EXC["FileNotFoundError"], (), errno=2))
         for a in [t] + parents(t):
             ex = z3.Store(ex, a, True)
         ct = z3.Store(ct, t, 0)
@@ -223,7 +228,7 @@ def build():
         if f.attrs["mode"] == "wb":
             ex, ct, pay = fs(ctx)
             t = to_term(f.attrs["path"])
-            if e is None:
+            if e is None and not f.attrs.get("torn"):
                 payload = f.attrs.get("payload")
                 pt = payload if payload is not None else z3.Const(ctx.fresh_name("payload"), Payload)
                 setfs(ctx, ct=z3.Store(ct, t, 2), pay=z3.Store(pay, t, pt))
@@ -263,6 +268,8 @@ def build():
         ctx.events.append(("pickle-into", f.attrs["path"]))
         crash_point(interp, "write")
         k = ctx.choose(3, "dump:outcome")
+        if k:
+            f.attrs["torn"] = True  # the bytes written so far are a strict prefix of the pickle, whatever happens to the exception
         if k == 1:
             raise PyRaise(SExc(PICKLING, ()))
         if k == 2:
@@ -291,26 +298,81 @@ def build():
     p.globals["concurrency_safe_rename"] = _Fn(os_replace)
     p.assume_note("os.replace(src, dst) is atomic: dst becomes exactly src's file (FileNotFoundError when src is gone); POSIX rename semantics, no fsync reordering")
 
-    def rmtree(interp, args, kwargs):
+    def under_term(q, t):
+        return z3.Or(q == t, z3.And(PathDT.is_join(q), z3.Or(PathDT.parent(q) == t, z3.And(PathDT.is_join(PathDT.parent(q)), z3.Or(
+            PathDT.parent(PathDT.parent(q)) == t)))),
+            z3.And(PathDT.is_tmp(q), z3.Or(PathDT.base(q) == t, z3.And(PathDT.is_join(PathDT.base(q)), z3.Or(
+                PathDT.parent(PathDT.base(q)) == t, z3.And(PathDT.is_join(PathDT.parent(PathDT.base(q))), PathDT.parent(PathDT.parent(PathDT.base(q))) == t))))))
+
+    def ord_term(ctx):
+        """Ordering clause of clear_path(function directory): the function's code file is still there, or no sub-directory (cached
+        result) is - results never outlive the code that computed them (what MemorizedFunc relies on: store invariant SI)."""
+        loc = ctx.ghost.get("ORD_LOC")
+        if loc is None:
+            return None
+        ex, ct, _ = fs(ctx)
+        code = PathDT.join(loc, z3.StringVal("func_code.py"))
+        sname = z3.String("s!ord")
+        child = PathDT.join(loc, sname)
+        return z3.Or(z3.And(z3.Select(ex, code), z3.Select(ct, code) != 0),
+                     z3.ForAll([sname], z3.Not(z3.And(z3.Select(ex, child), z3.Select(ct, child) == 0)), patterns=[z3.Select(ex, child)]))
+
+    def rmtree_subset(interp, args, kwargs, complete):
         ctx = interp.ctx
         interfere(interp)
         ex, ct, pay = fs(ctx)
         t = to_term(args[0])
         q = z3.Const("q!rm", PathDT)
-        under = z3.Or(q == t, z3.And(PathDT.is_join(q), z3.Or(PathDT.parent(q) == t, z3.And(PathDT.is_join(PathDT.parent(q)), z3.Or(
-            PathDT.parent(PathDT.parent(q)) == t)))),
-            z3.And(PathDT.is_tmp(q), z3.Or(PathDT.base(q) == t, z3.And(PathDT.is_join(PathDT.base(q)), z3.Or(
-                PathDT.parent(PathDT.base(q)) == t, z3.And(PathDT.is_join(PathDT.parent(PathDT.base(q))), PathDT.parent(PathDT.parent(PathDT.base(q))) == t))))))
+        under = under_term(q, t)
         ex2 = z3.Const(ctx.fresh_name("ex.rm"), EXK.sort())
-        # any prefix of the piecewise removal: nothing outside the subtree changes, inside things only disappear
+        # a crash leaves any prefix of the piecewise removal: nothing outside the subtree changes, inside things only disappear
         ctx.assume(z3.ForAll([q], z3.If(under, z3.Implies(z3.Select(ex2, q), z3.Select(ex, q)), z3.Select(ex2, q) == z3.Select(ex, q))))
         setfs(ctx, ex=ex2)
         ctx.events.append(("rmtree", args[0]))
         crash_point(interp, "rmtree (any prefix of the piecewise removal)")
+        o = ord_term(ctx)
+        if o is not None:
+            ctx.check("%s/crash-inside.rmtree.results-never-outlive-their-code-file" % interp.contract.qualname, o,
+                      detail="in every state a kill inside this removal can leave: func_code.py is still there, or no cached result of the function is")
+        if complete:
+            # the call returned: the whole subtree is gone (assumption: the owner of the cache can delete its own files)
+            ex3 = z3.Const(ctx.fresh_name("ex.rmdone"), EXK.sort())
+            ctx.assume(z3.ForAll([q], z3.If(under, z3.Not(z3.Select(ex3, q)), z3.Select(ex3, q) == z3.Select(ex, q))))
+            setfs(ctx, ex=ex3)
         return None
 
+    def rmtree(interp, args, kwargs):
+        return rmtree_subset(interp, args, kwargs, True)
+
+    def os_listdir(interp, args, kwargs):
+        """os.listdir(d): the names of exactly the children of d that exist at this moment (OSError when d does not exist)."""
+        ctx = interp.ctx
+        interfere(interp)
+        ex, ct, _ = fs(ctx)
+        d = to_term(args[0])
+        if not ctx.branch(z3.Select(ex, d), "listdir:exists"):
+            raise PyRaise(SExc(BUILTIN_EXC["FileNotFoundError"], (), errno=2))
+        from pyvc.values import SList
+        nm = ctx.fresh_name("names")
+        arr = z3.Const(nm, z3.ArraySort(z3.IntSort(), z3.StringSort()))
+        n = z3.Int(nm + ".len")
+        lidx = z3.Function(nm + ".idx", z3.StringSort(), z3.IntSort())
+        j, sname = z3.Int("j!ls"), z3.String("s!ls")
+        ctx.assume(n >= 0)
+        ctx.assume(z3.ForAll([j], z3.Implies(z3.And(0 <= j, j < n), z3.And(z3.Select(ex, PathDT.join(d, z3.Select(arr, j))), lidx(z3.Select(arr, j)) == j)),
+                             patterns=[z3.Select(arr, j)]))
+        ctx.assume(z3.ForAll([sname], z3.Implies(z3.Select(ex, PathDT.join(d, sname)), z3.And(0 <= lidx(sname), lidx(sname) < n, z3.Select(arr, lidx(sname)) == sname)),
+                             patterns=[z3.Select(ex, PathDT.join(d, sname))]))
+        ctx.ghost["LISTED"] = (Sym(EXK, ex), d, arr, n, lidx)
+        ctx.events.append(("listdir", args[0]))
+        return SList(STR, arr, n)
+
+    p.models["os.listdir"] = os_listdir
+    p.assume_note("os.listdir(d) returns exactly the names of the children of d at that moment; shutil.rmtree(p, ignore_errors=True) that returns has removed the whole subtree "
+                  "(the owner of a cache directory can delete its own files); a kill inside it leaves any subset")
+
     p.models["shutil.rmtree"] = rmtree
-    p.globals["rm_subdirs"] = _Fn(lambda i, a, k: rmtree(i, a, k))
+    p.globals["rm_subdirs"] = _Fn(lambda i, a, k: rmtree_subset(i, a, k, False))
     p.assume_note("shutil.rmtree(p, ignore_errors=True) removes entries under p piecewise (depth <= 3 below p: function dir / entry dir / file); never raises here")
 
     # ------------------------------------------------------------------ ghost set-up
@@ -340,6 +402,37 @@ def build():
     FUNCID = lambda interp: PyList([comp(interp, "func_id")])
     p.spec_funcs["not_final"] = lambda interp, d: ops.mk_bool(z3.Not(z3.And(PathDT.is_join(to_term(d)), z3.Or(*[PathDT.name(to_term(d)) == z3.StringVal(n) for n in FINAL_NAMES]))))
     p.spec_funcs["CI"] = lambda interp: ops.mk_bool(ci_term(*fs(interp.ctx)[:2]))
+    p.spec_funcs["ORD"] = lambda interp: ops.mk_bool(ord_term(interp.ctx))
+
+    def code_present(interp):
+        ex, ct, _ = fs(interp.ctx)
+        code = PathDT.join(interp.ctx.ghost["ORD_LOC"], z3.StringVal("func_code.py"))
+        return ops.mk_bool(z3.And(z3.Select(ex, code), z3.Select(ct, code) != 0))
+
+    def shrunk(interp):
+        exl = interp.ctx.ghost["LISTED"][0].term
+        ex, _, _ = fs(interp.ctx)
+        q = z3.Const("q!shr", PathDT)
+        return ops.mk_bool(z3.ForAll([q], z3.Implies(z3.Select(ex, q), z3.Select(exl, q)), patterns=[z3.Select(ex, q)]))
+
+    def processed(interp, upto):
+        _exl, d, arr, n, lidx = interp.ctx.ghost["LISTED"]
+        ex, ct, _ = fs(interp.ctx)
+        j = z3.Int("j!pr")
+        child = PathDT.join(d, z3.Select(arr, j))
+        return ops.mk_bool(z3.ForAll([j], z3.Implies(z3.And(0 <= j, j < ops.as_int_term(upto)), z3.Not(z3.And(z3.Select(ex, child), z3.Select(ct, child) == 0))),
+                                     patterns=[z3.Select(arr, j)]))
+
+    def nothing_left(interp):
+        ex, _, _ = fs(interp.ctx)
+        loc = interp.ctx.ghost["ORD_LOC"]
+        sname = z3.String("s!nl")
+        return ops.mk_bool(z3.And(z3.Not(z3.Select(ex, loc)), z3.ForAll([sname], z3.Not(z3.Select(ex, PathDT.join(loc, sname))))))
+
+    p.spec_funcs["code_present"] = code_present
+    p.spec_funcs["shrunk_since_listing"] = shrunk
+    p.spec_funcs["processed"] = processed
+    p.spec_funcs["nothing_left"] = nothing_left
     p.spec_funcs["n_events"] = lambda interp, name: sum(1 for e in interp.ctx.events if e[0] == name)
     p.spec_funcs["ev"] = lambda i, k: i.ctx.events[k] if isinstance(k, int) and 0 <= k < len(i.ctx.events) else ("<none>", None, None)
     p.spec_funcs["tmp_of"] = lambda interp, f: Sym(PATH, PathDT.tmp(to_term(f), interp.ctx.ghost["TID"].term, interp.ctx.ghost["PID"].term))
@@ -406,18 +499,46 @@ def build():
             params=dict(self=backend(), call_id=CALLID),
             ensures={"no_effect": "n_events('open-wb') == 0 and n_events('replace') == 0 and n_events('rmtree') == 0"},
         ))
+        LOOP_CI = Loop("for name in names", invariant={"CI": "CI()"}, havoc=["ghost:EX", "ghost:CT", "ghost:PAYL"])
         p.add(Contract(
             SB, "StoreBackendMixin.clear_item", variant=v, props=props, ghost=GHOST, setup=setup(conc),
             inline={"clear_location"},
             params=dict(self=backend(), call_id=CALLID),
             ensures={"CI": "CI()", "only_removes": "n_events('open-wb') == 0 and n_events('replace') == 0"},
+            loops={"clear_location#1": LOOP_CI},
         ))
-        p.add(Contract(
-            SB, "StoreBackendMixin.clear_path", variant=v, props=props, ghost=GHOST, setup=setup(conc),
-            inline={"clear_location"},
-            params=dict(self=backend(), call_id=FUNCID),
-            ensures={"CI": "CI()", "only_removes": "n_events('open-wb') == 0 and n_events('replace') == 0"},
-        ))
+        if conc:
+            p.add(Contract(
+                SB, "StoreBackendMixin.clear_path", variant=v, props=props, ghost=GHOST, setup=setup(conc),
+                inline={"clear_location"},
+                params=dict(self=backend(), call_id=FUNCID),
+                ensures={"CI": "CI()", "only_removes": "n_events('open-wb') == 0 and n_events('replace') == 0"},
+                loops={"clear_location#1": LOOP_CI},
+            ))
+        else:
+            # no concurrent writer (C05): in EVERY state a kill can leave, the function's cached results never outlive its code file
+            def cp_setup(interp, env, base=setup(conc)):
+                base(interp, env)
+                ctx = interp.ctx
+                loc = PathDT.join(to_term(env.lookup("self").fields["location"]), to_term(env.lookup("call_id").items[0]))
+                ctx.ghost["ORD_LOC"] = loc
+                ctx.assume(ord_term(ctx))  # store invariant at entry
+                ex, ct, _ = fs(ctx)
+                code = PathDT.join(loc, z3.StringVal("func_code.py"))
+                ctx.ghost["CODE0"] = ops.mk_bool(z3.And(z3.Select(ex, code), z3.Select(ct, code) != 0))
+                ctx.ghost["PRESENT0"] = ops.mk_bool(z3.Select(ex, loc))
+
+            p.add(Contract(
+                SB, "StoreBackendMixin.clear_path", variant=v, props=props + ["C12"], ghost=GHOST, setup=cp_setup,
+                inline={"clear_location"},
+                params=dict(self=backend(), call_id=FUNCID),
+                ensures={"CI": "CI()", "only_removes": "n_events('open-wb') == 0 and n_events('replace') == 0", "results_never_outlive_their_code_file": "ORD()",
+                         "everything_of_the_function_is_gone": "implies(PRESENT0, nothing_left())"},
+                loops={"clear_location#1": Loop("for name in names", invariant={
+                    "CI": "CI()", "results_never_outlive_their_code_file": "ORD()", "code_file_untouched_so_far": "implies(CODE0, code_present())",
+                    "only_removals_since_the_listing": "shrunk_since_listing()", "listed_subdirectories_processed_so_far_are_gone": "processed(_i)"},
+                    havoc=["ghost:EX"])},
+            ))
         p.add(Contract(
             SB, "StoreBackendMixin.load_item", variant=v, props=props, ghost=GHOST, setup=setup(conc),
             params=dict(self=backend(), call_id=CALLID, verbose=1, timestamp=None, metadata=None),
@@ -437,6 +558,8 @@ def build():
             params=dict(d=PATH),
             requires=["not_final(d)"],
             ensures={"CI": "CI()"},
-            # raises nothing when the directory appears concurrently (EEXIST is swallowed)
+            # raises nothing when the directory appears concurrently (EEXIST is swallowed); a parent level removed concurrently surfaces
+            # as FileNotFoundError, which the callers have to tolerate (dump_item / store_metadata do; store_cached_func_code: K4)
+            exsures=({"FileNotFoundError": {"only_under_interference": "True"}} if conc else {}),
         ))
     return p
